@@ -166,6 +166,7 @@ type HarnessSpec struct {
 	Note      string // bounds in words
 	GoQueue   bool
 	AbstractBig bool // allocations of non-constant size become length-abstracted arrays (contents not tracked)
+	FeasQueryMs int // time limit of one feasibility query in ms (default 1500; raise where pruning decides tractability)
 	FeasSecs  int // budget (seconds) for solver feasibility queries during symbolic execution (default 40)
 	HookLimit int // how many times vOnBlock may run at one blocking point
 	QuickSolve bool // thorough tier: this harness is inherited from the quick list and keeps the quick solver settings
@@ -264,6 +265,7 @@ func newEngine(l *loaded, hs HarnessSpec) *Engine {
 	if hs.FeasSecs > 0 {
 		e.feasBudget = float64(hs.FeasSecs)
 	}
+	e.feasQueryMs = hs.FeasQueryMs
 	e.hookLimit = 4
 	if hs.HookLimit > 0 {
 		e.hookLimit = hs.HookLimit
